@@ -342,6 +342,8 @@ pub fn run(tier: Tier) -> Report {
         (Cfg { responders: 4, searches: vec![(0, 0, false), (700, 1, true)], dup_ids: false, rng_seed: seed }, 1),
         (Cfg { responders: 5, searches: vec![(0, 1, true), (20, 0, true)], dup_ids: false, rng_seed: seed }, 1),
         (Cfg { responders: 3, searches: vec![(0, 0, true), (10, 1, true)], dup_ids: true, rng_seed: seed }, 1),
+        // more token holders than the 8 a search may announce to
+        (Cfg { responders: 11, searches: vec![(0, 0, true)], dup_ids: false, rng_seed: seed }, 0),
     ];
     let mut runs = 0u64;
     let mut levels = vec![];
